@@ -58,11 +58,12 @@ type c03JailArg struct {
 }
 
 type c03JailResult struct {
-	RecvErr string   `json:"recverr"`
-	Stuck   bool     `json:"stuck"`
-	Reqs    []uint32 `json:"reqs"`
-	FinSeen bool     `json:"finseen"`
-	Sent    int      `json:"sent"`
+	RecvErr   string   `json:"recverr"`
+	Stuck     bool     `json:"stuck"`
+	Reqs      []uint32 `json:"reqs"`
+	FinSeen   bool     `json:"finseen"`
+	Sent      int      `json:"sent"`
+	SentStats int      `json:"sentstats"` // STAT packets (without markers) the hostile sender got out before it stopped
 }
 
 // jailReceive runs inside the chroot.
@@ -113,7 +114,7 @@ func jailReceive(raw json.RawMessage) (any, error) {
 	if recvErr != nil {
 		res.RecvErr = recvErr.Error()
 	}
-	res.Reqs, res.FinSeen, res.Sent = sr.Reqs, sr.FinSeen, sr.PacketsSent
+	res.Reqs, res.FinSeen, res.Sent, res.SentStats = sr.Reqs, sr.FinSeen, sr.PacketsSent, sr.SentStats
 	return res, nil
 }
 
@@ -198,6 +199,18 @@ func genC03(t *rapid.T) *c03Case {
 		}
 		c.Mutations = append(c.Mutations, "guessed-temp-names")
 	}
+	// an old entry under the metadata-only listing's own name
+	if rapid.IntRange(0, 4).Draw(t, "oldlisting") == 0 && c.Dst != nil {
+		keep := c.Dst.Nodes[:0:0]
+		for _, n := range c.Dst.Nodes {
+			if n.Path != listingName && !strings.HasPrefix(n.Path, listingName+"/") {
+				keep = append(keep, n)
+			}
+		}
+		keep = append(keep, h.Node{Path: listingName, Kind: h.KSymlink, Perm: 0o777, Target: rapid.SampledFrom([]string{"/outside/secret", "../sibling", "/outside/newfile", "../../outside/dir/new"}).Draw(t, "oldlistingtarget")})
+		c.Dst.Nodes = keep
+		c.Dst.Normalize()
+	}
 	c.Mode = rapid.SampledFrom([]string{"normal", "normal", "merge", "metaonly", "merge+metaonly"}).Draw(t, "mode")
 	c.Capacity = rapid.SampledFrom([]int{0, 8, 64}).Draw(t, "cap")
 	c.Script.Chunk = []int{rapid.SampledFrom([]int{7, 4096, 32768}).Draw(t, "chunk")}
@@ -255,9 +268,9 @@ func genC03(t *rapid.T) *c03Case {
 				}
 				c.Mutations = append(c.Mutations, fmt.Sprintf("dir->nondir[%d]", j))
 			}
-		case 6, 7: // hard link to something it must not name
+		case 6, 7: // hard link to something it must not name (an escaping or unknown name, or itself)
 			if j := pick(); j >= 0 && os.FileMode(c.Stats[j].Mode)&os.ModeType == 0 {
-				c.Stats[j].Link = h.BStr(rapid.SampledFrom([]string{"../sibling", "/outside/secret", "../../outside/secret", "nonexistent", "zzz-later", "..", "a/../../sibling", "/parent/sibling"}).Draw(t, li+"hl"))
+				c.Stats[j].Link = h.BStr(rapid.SampledFrom([]string{"../sibling", "/outside/secret", "../../outside/secret", "nonexistent", "zzz-later", "..", "a/../../sibling", "/parent/sibling", string(c.Stats[j].Path), string(c.Stats[j].Path)}).Draw(t, li+"hl"))
 				c.Mutations = append(c.Mutations, fmt.Sprintf("hardlink[%d]->%q", j, c.Stats[j].Link))
 			}
 		case 8: // hard link with a special mode bit (socket/device) and an escaping name
@@ -454,7 +467,9 @@ func c03Check(env *h.Env, c *c03Case) error {
 	}
 	// (2) an offending stream fails, and nothing at or after the first offence is applied
 	if firstBad >= 0 && !unspecified && !res.Stuck {
-		if res.RecvErr == "" {
+		// (the receiver may have finished - an injected marker lets it send FIN -
+		// before the sender got the offending entry out: then there was no offence)
+		if res.RecvErr == "" && res.SentStats > firstBad {
 			return fmt.Errorf("%s: STAT %d (%q, link %q) breaks the stream rules but Receive returned success", what, firstBad, c.Stats[firstBad].Path, c.Stats[firstBad].Link)
 		}
 		earlier := map[string]bool{}
